@@ -54,7 +54,7 @@ class Chooser:
         return d
 
 
-def explore(run, bounds, max_execs=None, alt_filter=None):
+def explore(run, bounds, max_execs=None, alt_filter=None, max_branch_point=150, stats=None):
     """Depth-first over choice prefixes. bounds = {group: max deviations, '*': max total}.
     Yields (prefix, chooser, result). run must be deterministic given the prefix."""
     stack = [[]]
@@ -78,7 +78,9 @@ def explore(run, bounds, max_execs=None, alt_filter=None):
                 g = GROUP.get(kind, kind)
                 dev[g] = dev.get(g, 0) + 1
                 total += 1
-        for i in range(len(trace) - 1, len(prefix) - 1, -1):
+        if len(trace) > max_branch_point and stats is not None:
+            stats["unexpanded_points"] = stats.get("unexpanded_points", 0) + len(trace) - max_branch_point
+        for i in range(min(len(trace), max_branch_point) - 1, len(prefix) - 1, -1):
             kind, n, c, default = trace[i]
             g = GROUP.get(kind, kind)
             dev_i, tot_i = per_point[i]
